@@ -29,6 +29,7 @@ def run(rep, tier):
                     "what": "in the channel model (coq/Model/Chan.v) instantiated with the programs generated from the current channel.rs a wake-up is lost: a sender stays asleep in front of a free slot, or the receiver in front of a queued message, and nobody is left to wake it (a message accepted by send is then never delivered although the call returns Ok, or the step never ends)",
                     "capacity": c[0], "senders": c[1], "schedule": f[1], "final_state": f[2],
                     "programs_generated": part["programs_generated"],
+                    "note": ("the source notifies a sender under a condition the translator does not interpret (RNotifyMaybe = it may or may not notify): this schedule is a failing execution of that over-approximation, the checks on the real code decide whether the condition can actually skip a needed notification" if "RNotifyMaybe" in r else ""),
                     "replay_cmd": "echo 'chansearch gen %d %d L %d' | .build/ocaml/modelrun" % c,
                     "theorems_broken": "c03_chan_source_is_proved_program / c03_chan_sender_sleeps_only_when_full"})
                 found = True
